@@ -52,6 +52,15 @@ def handleCore : Handler := fun st op args =>
       let o := Spec.outcome (Spec.abs p)
       fmtOutcome o.over o.winner o.road o.whiteFlats o.blackFlats)
   | "allmoves", [ptok] => some (st, withPos ptok fun p => fmtMoves p.allMoves)
+  | "allmovesbuf", [ptok, mtok, _k] =>
+    some (st, withPos ptok fun p =>
+      match parseMove mtok with
+      | none => "bad-move"
+      | some m =>
+        match p.apply st.basis m with
+        | .ok q => fmtMoves q.allMoves
+        | .error (.panic e) => fmtErr (.panic e)
+        | .error _ => "err")
   | "slegal", [ptok] => some (st, withPos ptok fun p => fmtMoves (Spec.legalMoves (Spec.abs p)))
   | "hash", [ptok] => some (st, withPos ptok fun p => toString p.hashOf.toNat)
   | "dump", [ptok] => some (st, withPos ptok fun p => fmtPos p)
